@@ -15,7 +15,7 @@ RULE = ('Hypothesis draws message (body class incl. empty/block-boundary/binary/
         'encryptor (SKESK with/without encrypted session key, salted/iterated S2K, PKESK RSA/ECDH, SEIPD or tag-9 container, old/new/'
         'partial inner headers) and PGPy decrypts. Non-trivial: >=2 recipients, or non-default cipher/compression, or body > one '
         'cipher block, or foreign-produced; distinct by (direction, cipher, recipient kinds, compression, body class).')
-RULE += ' Backward messages may carry a further PKESK for a recipient of an unknown public-key algorithm. Messages of the cleartext framework are encrypted too (refusal or the same text). Backward cases include an SKESK whose own cipher differs (also in key size) from the data cipher. Inner packets also with old-format indeterminate lengths; ECDH session keys padded to 40/48 octets (RFC 6637 8); RSA recipients whose modulus length is not a multiple of 8 bits; messages exported before being signed; the export of the decrypted message must be a grammar-conformant message (no MDC leftovers).'
+RULE += ' Text under format t in a declared character set (cp1252, koi8-r, latin-1) must read back as given when the transport is armored. Backward messages may carry a further PKESK for a recipient of an unknown public-key algorithm. Messages of the cleartext framework are encrypted too (refusal or the same text). Backward cases include an SKESK whose own cipher differs (also in key size) from the data cipher. Inner packets also with old-format indeterminate lengths; ECDH session keys padded to 40/48 octets (RFC 6637 8); RSA recipients whose modulus length is not a multiple of 8 bits; messages exported before being signed; the export of the decrypted message must be a grammar-conformant message (no MDC leftovers).'
 ASSUMPTIONS = ['refpgp.enc is an independent RFC 4880 5.1/5.3/5.13/13.9 + RFC 6637 + RFC 3394 implementation sharing only block ciphers, '
                'RSA/ECDH primitives and hashlib with PGPy', 'a supplied session key has exactly the cipher key size (documented precondition)',
                'literal time compared at the wire resolution of one second']
@@ -121,6 +121,9 @@ def eval_forward(case, rec):
         except (wire.WireError, Exception) as e:   # noqa
             rec.finding('fwd/pgpy-roundtrip', 'decrypted-message-export-unreadable', case, repr(e))
         for f in ('message', 'filename', 'sensitive', 'format', 'mtime', 'compression', 'signatures'):
+            if f == 'message' and not case['armored'] and spec.get('charset') and expect['format'] == 't':
+                # the binary form carries no Charset hint: the octets are compared (by the independent decryptor below), not their reading as text
+                continue
             if got[f] != expect[f]:
                 rec.finding('fwd/pgpy-roundtrip', f, case, '%s: %s %r != %r' % (who, f, str(got[f])[:80], str(expect[f])[:80]))
         # signatures still verify
@@ -149,7 +152,7 @@ def eval_forward(case, rec):
             rec.finding('fwd/ref-plaintext', p.split(' ')[0], case, '%s: %s' % (who, p))
         if inner is not None and inner.literal is not None:
             want = bytes.fromhex(expect['message']) if isinstance(expect['message'], str) else expect['message'][1].encode(
-                'latin-1' if expect['format'] == 't' else 'utf-8')
+                (spec.get('charset') or 'latin-1') if expect['format'] == 't' else 'utf-8')
             if inner.literal.data != want:
                 rec.finding('fwd/ref-plaintext', 'content', case, '%s: literal body differs' % who)
 
